@@ -505,6 +505,32 @@ func checkC04Cell(c Cell, o *Obs) error {
 			}
 			o.Class("violation_header_only_peer_waits")
 		}
+		if headerLevelViolation(c) && c.Op < 8 && c.Len >= 2 && c.Len <= 4 {
+			// A read limit smaller than the length the refused frame announces: the
+			// frame is no part of any message, it is a framing violation and
+			// answered as one (1002), whatever its length field says.
+			o.Evals(1)
+			tr4 := xport.NewScriptConn(nil, nil)
+			conn4, err := NewConn(cfg, tr4, nil)
+			if err != nil {
+				return err
+			}
+			conn4.SetReadLimit(100)
+			tr4.SetInput(wire, nil)
+			h4 := &handlerLog{failAt: -1}
+			h4.install(conn4)
+			_, final4, _, _ := drainConn(conn4, 6, 2)
+			if final4 == nil {
+				return errors.New("with SetReadLimit(100): no error at the violating frame")
+			}
+			if errors.Is(final4, websocket.ErrReadLimit) {
+				return fmt.Errorf("with SetReadLimit(100): the violating frame (announcing %d bytes) was answered as a read-limit breach (%v) instead of a framing violation", cellLens[c.Len], final4)
+			}
+			if err := checkWriteBack(tr4.Wrote, cfg, nil, code, !owes); err != nil {
+				return fmt.Errorf("with SetReadLimit(100) (violating frame announces %d bytes): %w", cellLens[c.Len], err)
+			}
+			o.Class("violation_with_length_above_the_read_limit")
+		}
 		if c.Inside {
 			// The open message is read with ReadJSON and its first fragment already
 			// holds a complete document: that call succeeds without having met the
